@@ -12,7 +12,62 @@ COLORS = ['#fff', '#a1b2c3', '#000', 'red', 'transparent', 'rgb(1, 2, 3)', 'rgba
 MEDIA = ['print', 'screen', 'tv', 'all', 'handheld']
 LENGTHS = ('cm', 'mm', 'in', 'px', 'pc', 'pt', 'em', 'ex')
 NUMS = ['0', '1', '12', '1.5', '-3', '0.25', '100', '+1.5', '.5', '-.25', '1.0', '010', '0.0', '-0', '3.14159265', '0.0000004',
-        '100000000', '1.9999999', '+0', '00.50']
+        '100000000', '1.9999999', '+0', '00.50',
+        # whole numbers a double cannot hold exactly (2**53 + 1 and larger): the model keeps the integer
+        '9007199254740993', '12345678901234567891', '-99999999999999999999']
+BIG_INTS = [n for n in NUMS if len(n.lstrip('+-')) >= 16 and '.' not in n]
+
+
+def walk_comps(node):
+    """every value component of an AST (also the arguments of functions)"""
+    if isinstance(node, Comp):
+        yield node
+        for a in getattr(node, 'args', ()):
+            for c in walk_comps(a):
+                yield c
+    elif isinstance(node, (list, tuple)):
+        for x in node:
+            for c in walk_comps(x):
+                yield c
+
+
+def big_int_counts(ast):
+    """how often each integer of BIG_INTS is written in the sheet (as a number or as the number of a dimension)"""
+    out = {}
+    for c in walk_comps(ast):
+        if c.kind in ('NUMBER', 'DIMENSION', 'PERCENTAGE'):
+            for b in BIG_INTS:
+                if c.text.startswith(b) and not c.text[len(b):][:1].isdigit() and not c.text[len(b):].startswith('.'):
+                    out[int(b)] = out.get(int(b), 0) + 1
+    return out
+
+
+def model_int_counts(sheet):
+    """how often each of them is the exact value of a component of the parsed sheet"""
+    want = set(int(b) for b in BIG_INTS)
+    out = {}
+
+    def comp(v):
+        if getattr(v, 'type', None) in ('NUMBER', 'DIMENSION', 'PERCENTAGE'):
+            if isinstance(v.value, int) and v.value in want:
+                out[v.value] = out.get(v.value, 0) + 1
+        for i in getattr(v, 'seq', ()) if getattr(v, 'type', None) in ('FUNCTION', 'CALC', 'COLOR_VALUE', 'VARIABLE') else ():
+            if hasattr(i.value, 'type'):
+                comp(i.value)
+
+    def block(style):
+        for p in style.getProperties(all=True):
+            for v in p.propertyValue:
+                comp(v)
+
+    def rules(rs):
+        for r in rs:
+            if hasattr(r, 'style') and r.style is not None:
+                block(r.style)
+            if hasattr(r, 'cssRules'):
+                rules(r.cssRules)
+    rules(sheet.cssRules)
+    return out
 FEATURES = [('min-width', '100px'), ('max-width', '40em'), ('orientation', 'landscape'), ('color', None), ('min-resolution', '2'),
             ('monochrome', None), ('max-height', '50%')]
 
@@ -94,10 +149,11 @@ def gen_value(rnd, depth=0):
             v = rnd.choice(NUMS)
             comps.append(Comp('PERCENTAGE' if u == '%' else 'DIMENSION', v + u))
         elif k == 'string':
-            v = rnd.choice(['s', 'a b', 'x;y', 'q}', "it's", 'é', '/*c*/'])
+            # (incl. characters that str.splitlines / str.strip treat as line ends or blanks and CSS does not)
+            v = rnd.choice(['s', 'a b', 'x;y', 'q}', "it's", 'é', '/*c*/', 'x\u2028y', 'A\x85B', '1\x0b2', 'p\x1cq\u2029'])
             comps.append(Comp('STRING', v, '"%s"' % v))
         elif k == 'url':
-            v = rnd.choice(['a.png', 'img/b c.gif', 'http://h/x?y=1&z', 'é.png', '\xa0x.png', 'y.gif\u3000'])
+            v = rnd.choice(['a.png', 'img/b c.gif', 'http://h/x?y=1&z', 'é.png', '\xa0x.png', 'y.gif\u3000', 'a\u2029b.png', 'c\x85.gif'])
             comps.append(Comp('URI', v, 'url("%s")' % v))
         elif k == 'hash':
             comps.append(Comp('COLOR_VALUE', rnd.choice(COLORS)))
@@ -458,7 +514,7 @@ def render_rule(rule, lay, sp):
     if k == 'page':
         inner = render_decls(rule[2], lay, sp)
         for m, d in rule[3]:
-            inner += (w() + ';' + w() if inner else '') + m + w() + '{' + w() + render_decls(d, lay, sp) + w() + '}'
+            inner += (w() + ';' + w() if inner else '') + sp.atkw(m) + w() + '{' + w() + render_decls(d, lay, sp) + w() + '}'
         return sp.atkw('@page') + (w(True) + rule[1] if rule[1] else '') + w() + '{' + w() + inner + w() + '}'
     if k == 'fontface':
         return sp.atkw('@font-face') + w() + '{' + w() + render_decls(rule[1], lay, sp) + w() + '}'
@@ -473,6 +529,21 @@ def render_rule(rule, lay, sp):
 
 def render_sheet(rules, lay, sp):
     return lay.ws().join(render_rule(r, lay, sp) for r in rules)
+
+
+class AtCase:
+    """the canonical spelling but for the letter case of at-keywords (incl. the margin boxes of @page): the grammar has
+    them case-insensitive"""
+
+    def __init__(self, rnd):
+        self.rnd = rnd
+
+    def __getattr__(self, name):
+        return getattr(_PLAIN, name)
+
+    def atkw(self, k):
+        r = self.rnd.random()
+        return k.upper() if r < 0.3 else ''.join(c.upper() if self.rnd.random() < 0.4 else c for c in k) if r < 0.7 else k
 
 
 class Plain:
@@ -619,6 +690,8 @@ def comp_model(v):
         dim = v.dimension
         if num == 0 and dim in LENGTHS:
             return ('NUMBER', '0.0', None)
+        if isinstance(v.value, int) and abs(v.value) >= 2 ** 53:
+            return (t, str(v.value), dim)       # exact: a double cannot hold it
         return (t, '0.0' if num == 0 else repr(num + 0.0), dim)
     return (t, v.cssText)
 
@@ -815,3 +888,6 @@ def shape_of_model(model):
         else:
             out.append(tuple(m))
     return out
+
+
+_PLAIN = Plain()
